@@ -285,6 +285,7 @@ type UnchunkWriter struct {
 	closing chan struct{} // closed when writer closing has started
 	closeMu sync.Mutex    // to keep Close and CloseWithError from happening simultaneously
 	wMu     sync.Mutex    // guards w: Close may run while another goroutine is still in NextServiceInfo
+	forced  bool          // w is the already closed pipe of a forced message break (guarded by wMu)
 }
 
 func (w *UnchunkWriter) currentPipe() pipeWriter {
@@ -296,7 +297,16 @@ func (w *UnchunkWriter) currentPipe() pipeWriter {
 func (w *UnchunkWriter) setPipe(pw pipeWriter) {
 	w.wMu.Lock()
 	w.w = pw
+	w.forced = false
 	w.wMu.Unlock()
+}
+
+// currentIsForcedBreak reports whether the current pipe is the marker of a
+// forced message break, which was closed when it was sent.
+func (w *UnchunkWriter) currentIsForcedBreak() bool {
+	w.wMu.Lock()
+	defer w.wMu.Unlock()
+	return w.forced
 }
 
 // NextServiceInfo must be called once before each logical ServiceInfo.
@@ -355,6 +365,11 @@ func (w *UnchunkWriter) nextPipe(forceNewMessage bool) error {
 	}
 
 	w.setPipe(pw)
+	if forceNewMessage {
+		w.wMu.Lock()
+		w.forced = true
+		w.wMu.Unlock()
+	}
 	return nil
 }
 
@@ -423,7 +438,9 @@ func (w *UnchunkWriter) CloseWithError(err error) error {
 	// Create a new pipe and ensure that it is sent to the corresponding
 	// ChunkReader so that the error of CloseWithError is receivable
 	cur := w.currentPipe()
-	if cur == nil {
+	if cur == nil || w.currentIsForcedBreak() {
+		// (the marker pipe of a forced message break is already closed and
+		// would swallow err)
 		pr, pw := io.Pipe()
 		// NOTE: This can deadlock if the reader is not performing a ReadChunk
 		// loop until readers is closed
